@@ -576,6 +576,19 @@ pub fn icc_cycle(rng: &mut Rng, layout: &Layout) -> DocSpec {
     b.finish(catalog, &layout, rng)
 }
 
+/// Hostile: a /Pages node that lists itself among its /Kids (in front of a healthy leaf).
+pub fn self_kid(rng: &mut Rng, layout: &Layout) -> DocSpec {
+    let mut b = Builder::new();
+    let catalog = b.reserve();
+    let pages = b.reserve();
+    let leaf = b.add(Val::dict(vec![("Type", Val::name("Page")), ("Parent", Val::r(pages)), ("MediaBox", rect(0, 0, 100, 100)), ("Resources", Val::dict(vec![]))]));
+    b.put(pages, Val::dict(vec![("Type", Val::name("Pages")), ("Kids", Val::Arr(vec![Val::r(pages), Val::r(leaf)])), ("Count", Val::Int(1))]));
+    b.put(catalog, Val::dict(vec![("Type", Val::name("Catalog")), ("Pages", Val::r(pages))]));
+    let mut layout = layout.clone();
+    layout.keep_direct.push(catalog);
+    b.finish(catalog, &layout, rng)
+}
+
 /// A page tree as deep as `File::get_page` accepts (the root plus up to 15 nested /Pages nodes),
 /// with a leaf at the bottom and one at every third level.
 pub fn deep_tree(rng: &mut Rng, layout: &Layout) -> DocSpec {
@@ -631,6 +644,7 @@ pub enum Family {
     JbigCycle,
     LongParents,
     IccCycle,
+    SelfKid,
 }
 impl Family {
     pub fn name(&self) -> &'static str {
@@ -645,6 +659,7 @@ impl Family {
             Family::JbigCycle => "jbig_cycle",
             Family::LongParents => "long_parents",
             Family::IccCycle => "icc_cycle",
+            Family::SelfKid => "self_kid",
         }
     }
 }
@@ -672,6 +687,7 @@ pub fn generate(family: &Family, rng: &mut Rng) -> DocSpec {
         Family::JbigCycle => jbig_cycle(rng, &layout),
         Family::LongParents => long_parents(rng, &layout),
         Family::IccCycle => icc_cycle(rng, &layout),
+        Family::SelfKid => self_kid(rng, &layout),
         Family::RichEncrypted => {
             let o = RichOpts::random(rng);
             let mut layout = layout;
